@@ -34,6 +34,9 @@ enum AView {
     /// `(cresv (views))`: like `resv`, but a CLIENT resource (create_client_resource): on the server it is never fetched, the reader
     /// shows nothing, and no task is registered with the boundary
     ClientResView(Vec<AView>),
+    /// `(resu G (views))`: the reverse of `resv`: the reader shows the views WHILE the resource is loading and nothing once it has a
+    /// value, so that the boundaries and tasks inside the views are disposed in the middle of the render
+    ResUntil(u32, Vec<AView>),
     /// `(live)`: a dynamic text showing a signal ("alive") that a cleanup callback of the surrounding scope sets to "gone": what is
     /// rendered must be the state the render reached, not the state after its scopes were disposed
     Live,
@@ -53,7 +56,7 @@ fn prepare_resources(v: &AView, gates: &Gates) {
             ch.iter().for_each(|c| prepare_resources(c, gates));
         }
         AView::Async(_, res) => res.iter().for_each(|c| prepare_resources(c, gates)),
-        AView::ResView(g, vs) => {
+        AView::ResView(g, vs) | AView::ResUntil(g, vs) => {
             let rx = gates.borrow_mut().remove(g).unwrap_or_else(|| panic!("gate {g} used twice"));
             let mut rx = Some(rx);
             let g = *g;
@@ -82,6 +85,7 @@ fn parse(s: &Sx) -> AView {
         "async" => AView::Async(l[1].num(), l[2].list().iter().map(parse).collect()),
         "dyn" => AView::Dyn(l[1].list().iter().map(parse).collect()),
         "resv" => AView::ResView(l[1].num(), l[2].list().iter().map(parse).collect()),
+        "resu" => AView::ResUntil(l[1].num(), l[2].list().iter().map(parse).collect()),
         "live" => AView::Live,
         "cresv" => AView::ClientResView(l[1].list().iter().map(parse).collect()),
         x => panic!("bad async view {x}"),
@@ -155,6 +159,14 @@ fn build(v: &AView, gates: &Gates) -> View {
                 Some(_) => build_all(&vs, &gates),
             })
         }
+        AView::ResUntil(g, vs) => {
+            let r = RESOURCES.with(|m| *m.borrow().get(g).expect("resource prepared"));
+            let (vs, gates) = (vs.clone(), gates.clone());
+            View::from_dynamic(move || match r.get_clone() {
+                None => build_all(&vs, &gates),
+                Some(_) => View::default(),
+            })
+        }
         AView::Async(g, res) => {
             let rx = gates.borrow_mut().remove(g).unwrap_or_else(|| panic!("gate {g} used twice"));
             let (res, gates) = (res.clone(), gates.clone());
@@ -178,7 +190,7 @@ fn gates_of(v: &AView, out: &mut Vec<u32>) {
         }
         AView::Dyn(ch) => ch.iter().for_each(|c| gates_of(c, out)),
         AView::ClientResView(_) => {}
-        AView::Async(g, res) | AView::ResView(g, res) => {
+        AView::Async(g, res) | AView::ResView(g, res) | AView::ResUntil(g, res) => {
             out.push(*g);
             res.iter().for_each(|c| gates_of(c, out));
         }
@@ -193,7 +205,13 @@ async fn settle() {
 
 pub fn run(sx: &Sx) -> Vec<String> {
     let l = sx.list();
-    run_one(l[1].atom(), &l[2], &l[3]).0
+    // panics inside spawned tasks are swallowed by the executor (the task just dies): the hook counts them
+    let before = crate::PANICS.with(|p| p.get());
+    let mut lines = run_one(l[1].atom(), &l[2], &l[3]).0;
+    if crate::PANICS.with(|p| p.get()) > before {
+        lines.push("PANIC".to_string());
+    }
+    lines
 }
 
 /// one render; also returns the number of live reactive nodes seen when the view function starts
